@@ -99,7 +99,7 @@ def run(chk):
                 rc.name = "state"
                 chk.coverage["streams"].setdefault("corpus", {"cases": 0, "rule": "corpus/C11/*.json replayed (full payloads)"})["cases"] += 1
                 vf.compare(chk, rc, classify=classify, binpath=binp, stream_label="corpus:" + name)
-        n = 900 if quick else 12000
+        n = 900 if quick else 40000
         r = vf.run_stream(binp, "state", n, chk.seed, os.path.join(chk.outdir, "state"), replay=chk.replay)
         chk.add_stream(r, RULE_STATE)
         vf.compare(chk, r, classify=classify, binpath=binp)
